@@ -45,6 +45,9 @@ type WSEnd struct {
 	lockset  []int
 	locksetInit bool
 	unlockedWrites []string
+	pongsSeen   int
+	deadlineSetsAtLastPong int
+	deadlineSets int
 }
 
 type WSConnPair struct {
@@ -149,6 +152,8 @@ func (g *G) wsNextReader(e *WSEnd) Value {
 			}
 			continue
 		case websocket.PongMessage:
+			e.pongsSeen++
+			e.deadlineSetsAtLastPong = e.deadlineSets
 			if e.pongH != nil {
 				res, _ := g.callFn(e.pongH, []Value{S("")}, g.top, token.NoPos).(Iface)
 				if res.T != nil {
@@ -200,7 +205,10 @@ func (g *G) wsBeginWrite(e *WSEnd, typ int) (Value, Value) {
 
 func (g *G) wsEndWrite(w *wsWriter) Value {
 	e := w.end
-	g.schedPoint(&Op{desc: "ws.flush " + e.String(), obj: e, enabled: func() bool { return true }})
+	g.schedPoint(&Op{desc: "ws.flush " + e.String(), obj: e, enabled: func() bool {
+		c := g.run.B.Params["wscap"]
+		return c <= 0 || e.down || e.closed || e.wrErr != nil || len(e.peer.inbox) < c
+	}})
 	if w.closed {
 		return g.wsErr("websocket: write closed")
 	}
@@ -335,6 +343,7 @@ func init() {
 	})
 	C("SetReadDeadline", func(g *G, e *WSEnd, fn *ssa.Function, a []Value) Value {
 		e.deadline = a[0]
+		e.deadlineSets++
 		e.deadlines = append(e.deadlines, timeExt(g, a[0]))
 		e.dlExpired = false
 		return Iface{}
@@ -684,5 +693,24 @@ func init() {
 			return true
 		}})
 		return nil
+	})
+}
+
+func init() {
+	// pongs received by library-side connection ends after which the read deadline was not renewed
+	regV("PongsIgnored", func(g *G, a []Value) Value {
+		n := 0
+		for _, p := range g.run.env.pairs {
+			for _, e := range []*WSEnd{p.client, p.server} {
+				if e.rawPeer || e.closed || e.down {
+					continue
+				}
+				if e.pongsSeen > 0 && e.deadlineSets == e.deadlineSetsAtLastPong {
+					n++
+					g.run.obs = append(g.run.obs, e.String()+": pong received but the read deadline was not renewed afterwards")
+				}
+			}
+		}
+		return I64(int64(n))
 	})
 }
